@@ -1,7 +1,8 @@
 """C11 -- Channel broadcasts every message to every subscribed consumer, in order, once.
 
 Correspondence = event replay (DESIGN.md §4.2 form (ii)): scenarios run on the REAL usim.Channel;
-every atomic section of put / close / `await channel` / iteration is logged from outside (a logging
+every atomic section of put / close / `await channel` / iteration (incl. the postponement before each
+buffered message, fix D15) is logged from outside (a logging
 dict as `_consumer_buffers`, a logging Notification subclass as `_notification`, wrapped put/close,
 the consumer payloads of the harness) as a ChanProto transition with the projection of the real
 object after it (closed flag, buffers of the dict in insertion order).  Coq replays the log through
@@ -105,9 +106,10 @@ def execute(sc):
     nc = len(sc['cons'])
     ev = []                       # (op tuple, out tuple, projection)
     viol = []
-    st = dict(slept=0, woken_by_other=0, fault_wait=0, fault_body=0, faults_fired=0, yields=0)
+    st = dict(slept=0, woken_by_other=0, fault_wait=0, fault_post=0, fault_body=0, faults_fired=0, yields=0,
+              postponed=0)
     # ---- logger state (correspondence only)
-    lg = dict(cur=None, put=None, intent={}, phase={}, id_of={})
+    lg = dict(cur=None, put=None, intent={}, phase={}, id_of={}, pending={})
     runner_of = {}
 
     def proj():
@@ -141,6 +143,7 @@ def execute(sc):
             log(lg['intent'][i], ('RSleep',))
             lg['intent'][i] = ('Resume', i)
             lg['phase'][i] = 'wait'
+            lg['pending'][i] = False
             st['slept'] += 1
 
         def __awake_all__(self):
@@ -179,7 +182,7 @@ def execute(sc):
     accepted = []                 # values of accepted puts, in order
     mon = dict(sub={}, got={i: [] for i in range(nc)}, end={}, in_wait={}, closed_called=[],
                raise_len={})
-    tasks, notes = {}, {}
+    tasks, notes, hot = {}, {}, {}
 
     async def consumer(i, c):
         if c['start']:
@@ -213,10 +216,12 @@ def execute(sc):
             lg['phase'][i] = 'done'
             return
         lg['intent'][i] = ('Sub', i, 'Iter')
+        lg['pending'][i] = True
         n, broke = 0, False
         mon['in_wait'][i] = True
         try:
             async for m in ch:
+                lg['pending'][i] = False
                 mon['in_wait'][i] = False
                 log(lg['intent'][i], ('RYield', m))
                 lg['phase'][i] = 'body'
@@ -232,15 +237,18 @@ def execute(sc):
                     await (time + c['slow'])
                 mon['in_wait'][i] = True
                 lg['phase'][i] = 'next'          # about to call __anext__ again
+                lg['pending'][i] = True
         except BaseException:
             mon['end'][i] = 'fault'
-            if lg['phase'].get(i) == 'wait':
+            lg['pending'][i] = False
+            if lg['phase'].get(i) in ('wait', 'post'):
                 log(('Fault', i), ('RRaised',))
-                st['fault_wait'] += 1
+                st['fault_wait' if lg['phase'][i] == 'wait' else 'fault_post'] += 1
             lg['phase'][i] = 'done'
             mon['in_wait'][i] = False
             raise
         mon['in_wait'][i] = False
+        lg['pending'][i] = False
         if not broke:
             mon['end'][i] = 'ended'
             mon['raise_len'][i] = (len(accepted), bool(ch.closed))
@@ -312,6 +320,21 @@ def execute(sc):
     crash = None
     with F.Activations() as acts:
         acts.before.append(lambda k, loop, target, signal: lg.__setitem__('cur', runner_of.get(target)))
+
+        def postponed(k, loop, target):
+            # the iterating consumer went into `await postpone()` before its next pop: no
+            # subscription was made and no item was delivered in this activation
+            i = runner_of.get(target)
+            if i is not None and lg['pending'].get(i) and lg['phase'].get(i) in ('pre', 'next'):
+                log(lg['intent'][i], ('RPostpone',))
+                lg['intent'][i] = ('Resume', i)
+                lg['phase'][i] = 'post'
+                lg['pending'][i] = False
+                st['postponed'] += 1
+            for j, ph in lg['phase'].items():
+                if ph == 'post':
+                    hot.setdefault('c%d' % j, []).append(k)
+        acts.after.append(postponed)
         inj = F.Injector(sc.get('faults'), tasks, notes)
         acts.after.append(inj)
         try:
@@ -350,7 +373,7 @@ def execute(sc):
                 if n_at != mon['sub'][i]:
                     viol.append('single get %d raised StreamClosed although a message was put after it '
                                 'started waiting' % i)
-    return dict(events=ev, viol=viol, nacts=acts.k, stats=st, fired=len(inj.fired))
+    return dict(events=ev, viol=viol, nacts=acts.k, stats=st, fired=len(inj.fired), hot=hot)
 
 
 # ------------------------------------------------------------------ Coq rendering
@@ -401,9 +424,9 @@ def check_coq(ctx, batch, tag):
 def scenarios(ctx):
     rng = ctx.rng
     corners = ['empty', 'closed_first', 'one', 'all_late', 'same_time']
-    nbase = ctx.n(26, 260)
-    per_base = ctx.n(12, 40)
-    total = ctx.n(320, 9000)
+    nbase = ctx.n(48, 420)
+    per_base = ctx.n(6, 24)
+    total = ctx.n(330, 9000)
     made = 0
     for b in range(nbase):
         corner = corners[b % len(corners)] if b % 6 == 5 else 'burst' if b % 6 == 2 else None
@@ -413,7 +436,11 @@ def scenarios(ctx):
         made += 1
         base = json.loads(json.dumps(base0))
         vs = victims(base)
-        vic = rng.choice([v for v in vs if v.startswith('c')] * 3 + vs)
+        pre = execute(base)['hot']
+        if pre and rng.random() < 0.7:
+            vic = rng.choice(sorted(pre))            # someone who sits in a postponement before a pop
+        else:
+            vic = rng.choice([v for v in vs if v.startswith('c')] * 3 + vs)
         kind = rng.choice(['cancel', 'close', 'until'])
         if kind == 'until':
             idx = int(vic[1:])
@@ -421,10 +448,16 @@ def scenarios(ctx):
                 kind = 'cancel'
             else:
                 (base['cons'] if vic[0] == 'c' else base['prods'])[idx]['until'] = True
-        n = execute(base)['nacts']
-        ks = list(range(n))
-        if len(ks) > per_base:
-            ks = sorted(rng.sample(ks, per_base))
+        r0 = execute(base)
+        n = r0['nacts']
+        # close hits synchronously at boundary k; a cancel / until-trip must be queued BEFORE the
+        # activation that postpones (the postponement's own wake-up is queued FIFO behind it)
+        hotk = sorted({k - d for k in r0['hot'].get(vic, []) for d in ((0,) if kind == 'close' else (1, 2))
+                       if k - d >= 0})
+        if len(hotk) > per_base * 2 // 3:
+            hotk = sorted(rng.sample(hotk, per_base * 2 // 3))
+        rest = [k for k in range(n) if k not in hotk]
+        ks = sorted(hotk + rng.sample(rest, min(len(rest), per_base - len(hotk))))
         for k in ks:
             if made >= total:
                 return
@@ -455,11 +488,11 @@ def run(ctx):
         if r['viol']:
             ctx.fail(sc, '; '.join(r['viol'][:3]), family='channels')
         batch.append((sc, r['events']))
-        if len(ctx.samples) < 3 and r['stats']['fault_wait']:
+        if len(ctx.samples) < 3 and r['stats']['fault_post']:
             ctx.sample(dict(scenario=sc, events=[list(map(str, e)) for e in r['events'][:12]]))
     ctx.extra['sections_replayed'] = agg.get('events', 0)
     ctx.extra['landing'] = {k: agg.get(k, 0) for k in
-                            ('slept', 'woken_by_other', 'fault_wait', 'fault_body', 'faults_fired', 'yields')}
+                            ('slept', 'woken_by_other', 'postponed', 'fault_wait', 'fault_post', 'fault_body', 'faults_fired', 'yields')}
     check_coq(ctx, batch, 'chan')
 
 
